@@ -35,7 +35,9 @@ class Harness:
 
 def load_harnesses(prop, tier):
     mod = importlib.import_module("verif.harness.%s" % prop.lower())
-    return mod.harnesses(tier)
+    hs = mod.harnesses(tier)
+    only = os.environ.get("VERIF_ONLY")  # development aid: run a single harness
+    return [h for h in hs if h.name == only] if only else hs
 
 
 # ----------------------------------------------------------------------------------------------- one path
